@@ -108,6 +108,16 @@ class Share:
             if isinstance(v, MUT):      # e.g. a bytearray left as is by the msgpack dialect
                 out.add(id(v))
             return
+        if k == "boxed":
+            # annotated strategies return the object's own list, packed as List[date]; the others build a new list
+            if self.fam.defs[s[1]]["flavour"] in ("annotated", "annotated-sub"):
+                self.predict(("seq", "List", ("date",)), v.items, out)
+            return
+        if k == "stype":
+            # use_annotations=True: what _serialize() hands out is packed as the annotated wire type
+            if self.fam.defs[s[1]]["flavour"] == "annotations-list":
+                self.predict(("tuple", "Tuple", (("seq", "List", ("int",)), ("int",))), v._serialize(), out)
+            return
         if k == "nt":
             for f, x in zip(self.fam.defs[s[1]]["fields"], v):
                 self.predict(f["t"], x, out)
@@ -280,6 +290,7 @@ def run_case(seed, tier, rec, st):
             enc = BasicEncoder(tt, default_dialect=DN)
             dec = BasicDecoder(tt)
             enc0 = BasicEncoder(tt)
+            enc_pe = BasicEncoder(tt, post_encoder_func=lambda d: d)      # a hook that keeps what it is given
         except Exception as e:
             rec.violation(f"codec-build:{type(e).__name__}", {"type": tast.render(t), "N": N, "error": str(e)[:300]}, {"stage": "build"})
             return
@@ -297,7 +308,8 @@ def run_case(seed, tier, rec, st):
         fmt_share = Share(fam, ["list", "dict"], natives)
         for j in range(nvals):
             v = vg.value(t, 3)
-            observations = [("codec+dialect", lambda: enc.encode(v), v, share), ("codec-default", lambda: enc0.encode(v), v, Share(fam, []))]
+            observations = [("codec+dialect", lambda: enc.encode(v), v, share), ("codec-default", lambda: enc0.encode(v), v, Share(fam, [])),
+                            ("codec-default+post_encoder", lambda: enc_pe.encode(v), v, Share(fam, []))]
             w = W(v)
             hist = [("to_dict", lambda: w.to_dict(), w, Share(fam, [])), ("to_dict(dialect=DN)", lambda: w.to_dict(dialect=DN), w, share)]
             if meth:
